@@ -31,7 +31,7 @@ func c10Alphabet() []fsx.Op {
 		fsx.Op{K: "CREATE", H: "root", N: nameOfLen(200, 'z')},
 		fsx.Op{K: "RENAME", H: "root", N: "a", H2: "root", N2: nameOfLen(200, 'z')},
 		fsx.Op{K: "WRITE", H: "root/a", Off: 700 * 4096, Cnt: 1, Pat: 0x55, Stable: 2}, // (700 blocks: a later truncation or removal is finished in the background)
-		fsx.Op{K: "FAILMANY", H: "root", Cnt: 150}, // 150 refused requests in a row (each abort drops cached inodes)
+		fsx.Op{K: "FAILMANY", H: "root", Cnt: 150},                                     // 150 refused requests in a row (each abort drops cached inodes)
 		fsx.Op{K: "SHRINKCRASH"},                                                       // the server's Crash(): background freeing stops half-way; a new instance on the same disk
 		fsx.Op{K: "READ", H: "root/a", Off: 100 * 4096, Cnt: 8192},                     // hole-filling read
 		fsx.Op{K: "SETATTR", H: "root/d", Size: 64},
